@@ -2,6 +2,7 @@ import TensorModel.Proofs.Kernels
 import TensorModel.Proofs.MinMax
 import TensorModel.Proofs.CoreEq
 import TensorModel.Proofs.IterPaths
+import TensorModel.Proofs.MinMaxIter
 /-!
   C06 — elementwise arithmetic is coordinate-wise, in operand order, layout-blind.
   Property theorems only; helper lemmas live in `TensorModel/Proofs/Kernels.lean`.
@@ -617,6 +618,35 @@ theorem engMMVV_safe (st : St) (op : String) (a b : Dense)
   intro i hi
   exact ⟨_, _, cell_some_cellD (hA.has i hi), cell_some_cellD (hB.has i hi), hv i hi⟩
 
+/-- **Safe mode on the iterator path** (an operand is a view with gaps / carries a pending transpose, or the data orders
+    differ): the fresh tensor `r` of the operand's type, shape and data order holds, at the `k`-th position of its own
+    iterator, `op x y` of the operands' elements at position `k` of theirs - by coordinate, whatever the layouts;
+    operands and every pre-existing buffer are untouched. -/
+theorem engMMVV_safe_iter (st : St) (op : String) (a b : Dense)
+    (hsh : shapeEq a.shape b.shape = true) (hdt : a.dt = b.dt) (hord : a.dt ∈ ordTypes)
+    (hu : (a.requiresIterator || b.requiresIterator || !sameOrd a b) = true)
+    (hma : a.mask = none) (hmb : b.mask = none) (hlb : b.win.len ≠ 1) (hl1 : denseLen a.shape ≠ 1)
+    (hca : a.win.len ≤ a.win.cap)
+    (hor : ∀ i ∈ (freshOf st a.dt a.shape a.ap.o.col).offsets, 0 ≤ i ∧ i < (denseLen a.shape : Int))
+    (hoa : ∀ i ∈ a.offsets, 0 ≤ i ∧ i < (a.win.len : Int)) (hob : ∀ j ∈ b.offsets, 0 ≤ j ∧ j < (b.win.len : Int))
+    (hnd : (freshOf st a.dt a.shape a.ap.o.col).offsets.Nodup)
+    (hA : InBuf st a.win.buf a.win.off a.win.len) (hB : InBuf st b.win.buf b.win.off b.win.len) :
+    ∃ out r, engMMVV st op a b {} = .ok out ∧ out.ret = .fresh r ∧ out.reuse = none ∧
+      r.dt = a.dt ∧ r.ap.shape = a.shape ∧ r.ap.strides = Dense.defaultStrides a.ap.o.col a.shape ∧
+      r.ap.o.col = a.ap.o.col ∧ r.win = ⟨st.heap.size, 0, denseLen a.shape, denseLen a.shape⟩ ∧
+      out.st.mheap = st.mheap ∧
+      (∀ (k : Nat) m i j, r.offsets[k]? = some m → a.offsets[k]? = some i → b.offsets[k]? = some j →
+        ∃ x y, cell st a.win.buf (a.win.off + i.toNat) = some x ∧ cell st b.win.buf (b.win.off + j.toNat) = some y ∧
+          cell out.st r.win.buf m.toNat = some (.app2 op x y)) ∧
+      (∀ b' k, b' < st.heap.size → cell out.st b' k = cell st b' k) := by
+  obtain ⟨st', h, hm, hv, hfr⟩ := engMMVV_safe_iter' st op a b ⟨by simpa using hord, hdt, hsh⟩ hu hma hmb hlb hl1 hca
+    hor hoa hob hnd hA hB
+  refine ⟨_, _, h, rfl, rfl, rfl, rfl, rfl, rfl, rfl, hm, ?_, hfr⟩
+  intro k m i j hk hi hj
+  have h1 := hoa i (List.mem_of_getElem? hi)
+  have h2 := hob j (List.mem_of_getElem? hj)
+  exact ⟨_, _, cell_some_cellD (hA.has.at h1.1 h1.2), cell_some_cellD (hB.has.at h2.1 h2.2), hv k m i j hk hi hj⟩
+
 /-- **Scalar on the left of an operand that needs an iterator** (`MinBetween(s, t)`, `MaxBetween(s, t)`; finding F31,
     repaired: the result is walked with its own iterator, not with the operand's): the call returns a fresh tensor `r` of
     `t`'s element type, shape and data order which holds, at the `k`-th offset of its own iterator, `op t[j] s` for the
@@ -721,6 +751,8 @@ def tac : Dense := { ta with ap := { ta.ap with strides := calcStridesCol ta.ap.
 def tbc : Dense := { tb with ap := { tb.ap with strides := calcStridesCol tb.ap.shape, o := { col := true } } }
 example := engMMVV_safe st "minb" tac tbc (by decide) rfl (by decide) (by decide) (by decide) (by decide) rfl (by decide)
   (by decide) inA inB
+example := engMMVV_safe_iter st "minb" tT tb (by decide) rfl (by decide) (by decide) rfl rfl (by decide) (by decide) (by decide)
+  (by decide) (by decide) (by decide) (by decide) inA inB
 example : ∃ out r, engMMVV st "minb" tac tbc {} = .ok out ∧ out.ret = .fresh r ∧ r.ap.o.col = true := ⟨_, _, rfl, rfl, rfl⟩
 -- scalar on the left of a (1,3) view with a gap after every element (finding F31, repaired)
 def st6 : St := { heap := #[#[.src 0 0, .src 0 1, .src 0 2, .src 0 3, .src 0 4, .src 0 5], #[.src 1 0]] }
